@@ -255,6 +255,12 @@ impl<'a> MessageView<'a> {
 
     /// Returns the value at `index`, if any.
     pub fn get_value(&self, index: usize) -> Option<&[u8]> {
+        // There are no offsets for 1 pair *and* for 0 pairs, so the last
+        // index can't be recognised from `offsets` alone.
+        if index >= self.len() {
+            return None;
+        }
+
         let header = 8 * self.len();
 
         let offsets = self.offsets();
